@@ -7,6 +7,8 @@ LEVELS = ("interfaces", "fields", "methods")
 
 # ---- vacuity classes ---------------------------------------------------------------------------
 def _cls(r):
+    if r.get("op") == "store":
+        return r.get("cls")
     if r.get("op") == "lists":
         return "lists/%s/%s/%s%s" % (r.get("level"), "compatible" if r.get("compatible") else "incompatible", r.get("rel"),
                                      "/byte-identical" if r.get("same") else "")
@@ -28,6 +30,7 @@ def _required():
     for c in ("Client", "Server", "Both-equal"):
         req.append("jars/row/dir/%s" % c)
     req.append("jars/pair")
+    req += ["store/empty", "store/junk", "store/class-twice", "store/dirs", "store/plain"]
     # marks at member level: one-sided (client / server), shared-equal, shared-different, alone and mixed
     for lv in LEVELS:
         st = ("client", "server", "equal") + (() if lv == "interfaces" else ("different",))
@@ -302,7 +305,10 @@ def _corrupt(recs, seed):
 
 P = {
     "dir": "jar",
-    "mc": [{"module": "MC_JarMerge", "cfg": "MC_JarMerge.cfg"}],
+    "mc": [{"module": "MC_JarMerge", "cfg": "MC_JarMerge.cfg"},
+           # the storage layer every jar operation stands on: the four forms of a jar (UnnamedMemJar, NamedMemJar, FileJar, ParsedJar)
+           # behind the traits Jar / OpenedJar / JarEntry show one abstract jar (spec/jar/JarStore.tla)
+           {"module": "MC_JarStore", "cfg": "MC_JarStore.cfg", "trace": False}],
     "trace": {"module": "Trace_JarMerge", "cfg": "Trace_JarMerge.cfg"},
     "trace_s2i": 4000,
     "i2s_n": {"quick": 600, "thorough": 12000},
